@@ -169,7 +169,7 @@ def run(P, C, tier):
                         skip.add((sb, tg))
         r = tk.reach_after(sr, avoid_blocks=ul, avoid_edges=skip)
         ok = bool(ul) and not (r & set(tk.exits()))
-        same = all(mir.strip(tk.call_args(u)[1]) == mir.strip(tk.call_args(sr)[0]) for u in ul)
+        same = all(tk.origin(tk.call_args(u)[1]) == tk.origin(tk.call_args(sr)[0]) for u in ul)
         C.ob("R2", "unlock-on-every-exit", ok and same, tk.loc(ul[0]) if ul else tk.loc(), "every path from synchronise_room(room) to the end of the task calls lock_service.unlock(room): %s, same room: %s" % (ok, same))
         # holder bookkeeping
         insb = [bi for bi, t in tk.calls_to(r"HashSet::insert$")]
@@ -213,6 +213,13 @@ def run(P, C, tier):
             coll = mir.elem_collection(s, mir.strip(a[1])) if mir.strip(a[1])[0] == "var" else None
             if bars and lock_calls and coll is not None and rooted(s, coll, r"HashSet<\[u8; 16\]>"):
                 held = True
+        if not held and lock_calls:
+            # `let rooms: Vec<Uid> = guard.drain().collect()`: the list itself is produced from the locked set
+            rv_ = mir.strip(s.call_args(cl)[1])
+            terms, bars = mir.flow_sources(s, rv_, r"Mutex.*::lock$")
+            if bars and any(n.endswith("::collect") or n.endswith("::extend") or n.endswith("from_iter") for n in terms):
+                held = True
+                feeds.add("collect(locked set)")
         C.ob("R3", "held-rooms-released", held, s.loc(cl), "cleanup receives the rooms of the connection's held set (Mutex<HashSet<Uid>>): sources of the list %s" % sorted(feeds))
         drain_calls = [bi for bi, t in s.calls_to(r"UnboundedReceiver::try_recv$") if cl in s.reach_after(bi)]
         feeds_from_queue = False
